@@ -37,8 +37,25 @@ pub fn write_trap_line(context: &ExecutionContext, text: String, original: &Stri
 ''')
     g.before(r'^\s*write_trap_line\(', "proof { lemma_sq_replaced_word(handler.command@); if !handler.command@.contains('\\'') { lemma_replace_id(handler.command@, '\\'', sq_esc()); } }", fn_name=fn, optional=True)
     u.add(g)
+    # ---- ${v@Q}: the arm of apply_transform_to (expansion.rs, R6 block slice)
+    ex = u.source('brush-core/src/expansion.rs')
+    u.raw('''pub mod error { use vstd::prelude::*; #[verifier::external_body] pub struct Error { _p: u8 } }
+pub mod escape {
+    use vstd::prelude::*;
+    pub enum QuoteMode { BackslashEscape, SingleQuote, DoubleQuote }      // projection of escape.rs QuoteMode
+    // force_quote: proved in unit U16 to return a text that reads back as the value (for values without NUL)
+    #[verifier::external_body]
+    pub fn force_quote(s: &str, mode: QuoteMode) -> (r: String) ensures super::reads_as(r@, s@) { unimplemented!() }
+}
+''')
+    fn = 'quoted_transform_arm'
+    q = ex.block_slice(r'^\s*brush_parser::word::ParameterTransformOp::Quoted => \{$',
+                       'fn quoted_transform_arm(s: &str, came_from_undefined: bool) -> Result<String, error::Error>', fn, within_fn='apply_transform_to')
+    q.r1()
+    q.sig(fn, ret='res', ensures=[C('C13 at-Q-of-a-set-parameter-reads-back-as-its-value-the-empty-string-included', '!came_from_undefined ==> res is Ok && reads_as(res->Ok_0@, s@)')])
+    u.add(q)
     u.raw(FOOTER)
-    u.assume('external_body', 'str::replace(char, &str) and the two format strings are stubs stating their documented result; the trap table lookup is abstract; write_trap_line stands for writeln! to stdout')
+    u.assume('external_body', 'escape::force_quote carries the contract proved for it in U16; str::replace(char, &str) and the two format strings are stubs stating their documented result; the trap table lookup is abstract; write_trap_line stands for writeln! to stdout')
     u.assume('stub', 'export -p / declare -p / set / ${v@A} call escape::force_quote (verified in U16) inside format strings that are NOT verified')
-    u.expected_min_fns = 2
+    u.expected_min_fns = 3
     return u
